@@ -52,7 +52,7 @@ out.append('Hand-written mutants and canaries (`selftest/mutants/<name>.patch`):
 out.append('')
 out.append('| change | property | result | first failing obligation(s) |')
 out.append('|---|---|---|---|')
-for name in sorted(k for k in res if not re.match(r'^C\d\d[ab]$', k)):
+for name in sorted(k for k in res if not re.match(r'^C\d\d[a-f]$', k)):
     st, prop, obls = res[name]
     out.append(f"| {name} | {prop} | {st} | {'; '.join('`%s`' % o for o in obls[:2])} |")
 out.append('')
